@@ -41,20 +41,20 @@ const genRule = "clusters drawn from the PCG stream (VERIF_SEED, case index) by 
 
 // registerSched registers the scheduler-side checks.
 func registerSched() {
-	run.Register(&SchedCheck{Id: "C01", Profile: "tight", Quick: 320, Thorough: 6000, Oracle: cyc(oracle.CheckC01),
+	run.Register(&SchedCheck{Id: "C01", Profile: "tight", Quick: 1000, Thorough: 8000, Oracle: cyc(oracle.CheckC01),
 		RuleText: genRule + "Non-trivial: a case with >=1 successful Bind onto a node that held a terminating or same-cycle-evicted pod, or that ended within 25% of full in a requested resource. Distinct = distinct hash of (objects, config, faults).",
 		Assume:   []string{"DRA-claimed devices and CSI capacity are not checked", "pod slots of future reservation pods are not charged to the bind that opens a GPU group"}})
-	run.Register(&SchedCheck{Id: "C02", Profile: "fractions", Quick: 320, Thorough: 6000, Oracle: cyc(oracle.CheckC02),
+	run.Register(&SchedCheck{Id: "C02", Profile: "fractions", Quick: 1000, Thorough: 8000, Oracle: cyc(oracle.CheckC02),
 		RuleText: genRule + "Non-trivial: a case that binds a fractional pod into a group that already has a sharer, binds a multi-fraction pod, or binds on a node with <=1 free GPU device.",
 		Assume:   []string{"one accounting unit (1/deviceMemory) of slack per sharer", "device identity of whole-GPU pods is not observable; checked as whole+shared<=count"}})
-	run.Register(&SchedCheck{Id: "C03", Profile: "gangs", Quick: 320, Thorough: 6000, Oracle: cyc(oracle.CheckC03), SkipFaulty: true,
+	run.Register(&SchedCheck{Id: "C03", Profile: "gangs", Quick: 1000, Thorough: 8000, Oracle: cyc(oracle.CheckC03), SkipFaulty: true,
 		RuleText: genRule + "Non-trivial: a case in which a gang with total minimum >= 2 received a bind, nomination or eviction. Evaluated only on cases without injected API write failures.",
 		Assume:   []string{"pods whose sub-group label names no leaf sub-group are ignored (the scheduler ignores them too)", "the eviction clause is judged only for gangs that were at or above minimum in every pod set before the cycle"}})
-	run.Register(&SchedCheck{Id: "C04", Profile: "constraints", Quick: 320, Thorough: 6000, Oracle: cyc(oracle.CheckC04),
+	run.Register(&SchedCheck{Id: "C04", Profile: "constraints", Quick: 1000, Thorough: 8000, Oracle: cyc(oracle.CheckC04),
 		RuleText: genRule + "Non-trivial: a case with a bind/nomination of a pod whose hard constraints exclude at least one node of the pool, or that carries inter-pod (anti-)affinity terms, or whose group/sub-group has a required topology level.",
 		Assume: []string{"terminating, same-cycle-evicted and merely nominated pods are don't-care for inter-pod terms (either reading accepted)", "only Ready/unschedulable node conditions are demanded",
 			"topology: labels are demanded for the required level and coarser levels only; already active pods pin the domain only if they lie in one domain"}})
-	run.Register(&SchedCheck{Id: "C06", Profile: "victims", Quick: 320, Thorough: 6000,
+	run.Register(&SchedCheck{Id: "C06", Profile: "victims", Quick: 1000, Thorough: 8000,
 		Oracle: func(m *oracle.Model, res *sched.CycleResult, after *spec.Objects, c *spec.Case, st *oracle.Stats) []run.Violation {
 			return oracle.CheckC06(m, res.Events, res.Cycle, time.Now(), st)
 		},
@@ -129,13 +129,13 @@ func registerSched() {
 		Assume: []string{"a decision is judged only if the harness' allocation model and the scheduler's own per-queue allocation agree at session open for every queue involved (disagreements are C14's business)",
 			"a victim re-nominated in the same decision takes nothing from its queue", "equal saturation ratios are flagged only for cpu/memory or integral GPU allocations (float ties otherwise)",
 			"cycles in which a Bind/Evict call failed are not judged"}})
-	run.Register(&SchedCheck{Id: "C08", Profile: "limits", Quick: 320, Thorough: 6000, Oracle: cycNoFailedCalls(oracle.CheckC08),
+	run.Register(&SchedCheck{Id: "C08", Profile: "limits", Quick: 1000, Thorough: 8000, Oracle: cycNoFailedCalls(oracle.CheckC08),
 		RuleText: genRule + "Non-trivial: a case in which a placement ended within one pod request of a finite queue limit or (non-preemptible) of a finite deserved quota.",
 		Assume: []string{"allocation model: requests of bound/binding/running non-terminating pods plus this cycle's binds and nominations minus evictions, rolled up the queue tree; terminating pods are not counted (weaker than the scheduler's own charge, hence sound)",
 			"a queue already above its limit at cycle start is reported only if a decision raises it above the cycle-start value",
 			"cycles in which a Bind/Evict call failed are not judged (the property does not quantify over API failures)",
 			"with --full-hierarchy-fairness=false the queue tree is the flattened one the scheduler builds (top-level queues dropped)"}})
-	run.Register(&SchedCheck{Id: "C16", Profile: "order", Quick: 320, Thorough: 6000, Oracle: cyc(oracle.CheckC16), SkipFaulty: true,
+	run.Register(&SchedCheck{Id: "C16", Profile: "order", Quick: 1000, Thorough: 8000, Oracle: cyc(oracle.CheckC16), SkipFaulty: true,
 		RuleText: genRule + "Clones = pod groups created by the generator from one template in one leaf queue (annotation verif/clone-class). Non-trivial: a case in which, among comparable clones (all pods pending, same preemptibility), one was placed by allocate and another was not.",
 		Assume:   []string{"clones carry no inter-pod affinity and no topology constraint"}})
 	run.Register(&SchedCheck{Id: "C14", Profile: "accounting", Quick: 240, Thorough: 4000,
